@@ -63,16 +63,17 @@ pub mod nd {
         pub fn view<'a>(&'a self) -> (r: ArrayView2<'a, T>) ensures v2(r) == a2(*self) { unimplemented!() }
     }
     impl ArrayView {
-        /// `ArrayView::from_shape(n, slice)`: Ok iff the slice has exactly n elements; then a view of it
+        /// `ArrayView::from_shape(n, slice)`: Err iff the slice is too short; a longer slice is accepted and its first n
+        /// elements are viewed (ndarray checks `len >= n`, not equality — confirmed by tests/verif_replay.rs assumed_ndarray_contracts)
         #[verifier::external_body]
         pub fn from_shape<'a, T>(n: usize, s: &'a [T]) -> (r: Result<ArrayView1<'a, T>, ShapeError>)
-            ensures (r is Ok) == (n == s@.len()), r is Ok ==> v1(r->Ok_0) == s@
+            ensures (r is Ok) == (n <= s@.len()), r is Ok ==> v1(r->Ok_0) == s@.subrange(0, n as int)
         { unimplemented!() }
     }
     impl<'a, T> ArrayView1<'a, T> {
         #[verifier::external_body]
         pub fn from_shape(n: usize, s: &'a [T]) -> (r: Result<ArrayView1<'a, T>, ShapeError>)
-            ensures (r is Ok) == (n == s@.len()), r is Ok ==> v1(r->Ok_0) == s@
+            ensures (r is Ok) == (n <= s@.len()), r is Ok ==> v1(r->Ok_0) == s@.subrange(0, n as int)
         { unimplemented!() }
     }
     /// R-fuse: `a.row_mut(k).assign(&v)` — panics unless k is a row index and the lengths agree;
